@@ -15,3 +15,27 @@ Proof. exact (conj parse_fmt_d (conj parse_fmt_dz parse_fmt_x)). Qed.
 Example C15_witness : fmt_x 1684234849 = [54; 52; 54; 51; 54; 50; 54; 49]%N%list /\ parse_hex (fmt_x 1684234849) = Some 1684234849%N.
 Proof. split; vm_compute; reflexivity. Qed.
 Print Assumptions C15_partial.
+
+(* The widths at which the parser model reads enum members and evaluates [flags] expressions (Parse.is_uint_prim / is_int_prim,
+   hand-written) are the source's decodeIntegerType switch as translator T2 regenerates it on every run: the same type names,
+   the same bit widths, the same signedness - both ways. *)
+Require Import Bebop.front.Tok Bebop.front.Parse Bebop.gen.Tables.
+From Coq Require Import String Ascii Bool.
+Definition bos (s : string) : list N := map (fun a => N.of_nat (nat_of_ascii a)) (list_ascii_of_string s).
+Definition width_entry_ok (kv : string * (nat * bool)) : bool :=
+  let '(name, (bits, uns)) := kv in
+  if uns then match is_uint_prim (bos name) with Some b => N.eqb b (N.of_nat bits) | None => false end
+  else match is_uint_prim (bos name), is_int_prim (bos name) with None, Some b => N.eqb b (N.of_nat bits) | _, _ => false end.
+Definition C15_widths_statement : Prop :=
+  (forall kv, In kv decode_integer_type -> width_entry_ok kv = true) /\
+  (forall b k, is_uint_prim b = Some k -> In (b, (N.to_nat k, true)) (map (fun kv => (bos (fst kv), snd kv)) decode_integer_type)) /\
+  (forall b k, is_int_prim b = Some k -> In (b, (N.to_nat k, false)) (map (fun kv => (bos (fst kv), snd kv)) decode_integer_type)).
+Theorem C15_widths : C15_widths_statement.
+Proof.
+  split; [apply forallb_forall; vm_compute; reflexivity|]. split.
+  - intros b k. unfold is_uint_prim, beq.
+    repeat match goal with |- context [list_eq_dec N.eq_dec b ?w] => destruct (list_eq_dec N.eq_dec b w) as [->|_]; [intros [= <-]; vm_compute; tauto|] end. discriminate.
+  - intros b k. unfold is_int_prim, beq.
+    repeat match goal with |- context [list_eq_dec N.eq_dec b ?w] => destruct (list_eq_dec N.eq_dec b w) as [->|_]; [intros [= <-]; vm_compute; tauto|] end. discriminate.
+Qed.
+Print Assumptions C15_widths.
